@@ -28,6 +28,9 @@ func run(c *hc.Ctx) {
 	if c.Only == "" || c.Only == "splitat-corr" {
 		corrSplitAt(c)
 	}
+	if c.Only == "" || c.Only == "length-corr" {
+		corrLength(c)
+	}
 	if c.Only == "" || c.Only == "reverse" {
 		oracleReverse(c)
 	}
@@ -206,8 +209,17 @@ func piecesHex(ps []*canvas.Path) string {
 
 func corr(c *hc.Ctx) {
 	// 1. de Casteljau split functions (generated definitions the theorems are about)
-	names := hc.L1Names([]string{"Bezier"}, func(file, recv, name string) bool {
-		return strings.HasSuffix(name, "BezierSplit") || strings.HasSuffix(name, "BezierPos")
+	// (the generated definitions the theorems and the hand models are built on: the split/pos/deriv
+	// functions, Equal and the Point operations used by the Length and SplitAt models)
+	names := hc.L1Names([]string{"Core", "Bezier"}, func(file, recv, name string) bool {
+		if recv == "Point" {
+			switch name {
+			case "Add", "Sub", "Mul", "Dot", "Interpolate":
+				return true
+			}
+			return false
+		}
+		return name == "Equal" || strings.HasSuffix(name, "BezierSplit") || strings.HasSuffix(name, "BezierPos") || name == "cubicBezierDeriv"
 	})
 	c.L1Corr(names, c.N/2+1)
 
@@ -235,6 +247,7 @@ func corr(c *hc.Ctx) {
 			continue
 		}
 		c.Case("REV "+toks, "=", hc.DataHex(rev.Data()))
+		reverseBranches(c, rs)
 		var ps []*canvas.Path
 		if msg := hc.Try(func() { ps = p.Split() }); msg != "" {
 			c.Fail("panic:Split", msg, map[string]any{"path": p.String()})
@@ -389,6 +402,49 @@ func corr(c *hc.Ctx) {
 			if math.Abs(v-exact) > 1e-5*scale {
 				c.Fail("gauss-legendre-moment", fmt.Sprintf("gaussLegendre%d(x^%d,%v,%v)=%v, exact %v", n, k, a, b, v, exact), map[string]any{"n": n, "k": k, "a": a, "b": b})
 			}
+		}
+	}
+}
+
+// reverseBranches counts the branches of Path.Reverse the record array exercises (one count per
+// subpath / record), so that the evidence shows which parts of the backward loop the inputs reach.
+func reverseBranches(c *hc.Ctx, rs []rec) {
+	for i, r := range rs {
+		switch r.k {
+		case 'M':
+			if i == 0 {
+				c.Count("rev branch:MoveTo-at-index-0")
+			} else {
+				c.Count("rev branch:MoveTo-subpath-boundary")
+			}
+			// what follows decides how a pending Close is consumed
+			j := i + 1
+			for j < len(rs) && rs[j].k != 'M' {
+				j++
+			}
+			closed := j > i+1 && rs[j-1].k == 'Z'
+			switch {
+			case !closed:
+				c.Count("rev branch:open-subpath")
+			case j == i+2:
+				c.Count("rev branch:closed-subpath-empty(MZ)")
+			case rs[i+1].k == 'L':
+				c.Count("rev branch:closed-first-LineTo-becomes-Close")
+			default:
+				c.Count("rev branch:closed-first-curve-Close-at-MoveTo")
+			}
+		case 'Z':
+			zx, zy := r.end()
+			px, py := rs[i-1].end()
+			if eqPt(hc.P2{X: zx, Y: zy}, hc.P2{X: px, Y: py}) {
+				c.Count("rev branch:Close-zero-length(no LineTo)")
+			} else {
+				c.Count("rev branch:Close-emits-LineTo")
+			}
+		case 'A':
+			c.Count("rev branch:arc-sweep-flip")
+		case 'C':
+			c.Count("rev branch:cubic-control-swap")
 		}
 	}
 }
